@@ -847,8 +847,45 @@ func ruleDivContext(p *Program, r *Reporter) {
 		if !usesPrev {
 			continue
 		}
+		// v derives from prevToken.Type
+		derivesFromPrev := func(v ssa.Value) bool {
+			fromPrev := false
+			var w func(v ssa.Value, d int)
+			w = func(v ssa.Value, d int) {
+				if v == nil || d > 5 {
+					return
+				}
+				switch x := v.(type) {
+				case *ssa.UnOp:
+					w(x.X, d+1)
+				case *ssa.FieldAddr:
+					if fieldKey(x) == "lexer.Lexer.prevToken" {
+						fromPrev = true
+					}
+					w(x.X, d+1)
+				}
+			}
+			w(v, 0)
+			return fromPrev
+		}
 		for _, b := range fn.Blocks {
 			for _, ins := range b.Instrs {
+				// the set kept as a table: a look-up of the previous token's type
+				// in a package-level map that is never written; the kinds whose
+				// entry is true
+				if lk, ok := ins.(*ssa.Lookup); ok && derivesFromPrev(lk.Index) {
+					if ld, ok := lk.X.(*ssa.UnOp); ok {
+						if g, ok := ld.X.(*ssa.Global); ok {
+							if keys, vals, info, ok := globalMapLiteral(p, g); ok {
+								for i, k := range keys {
+									if tv, has := info.Types[vals[i]]; has && tv.Value != nil && tv.Value.Kind() == constant.Bool && constant.BoolVal(tv.Value) && k.Kind() == constant.String {
+										found[constant.StringVal(k)] = true
+									}
+								}
+							}
+						}
+					}
+				}
 				bo, ok := ins.(*ssa.BinOp)
 				if !ok || bo.Op != token.EQL {
 					continue
@@ -857,25 +894,7 @@ func ruleDivContext(p *Program, r *Reporter) {
 				if !ok || k.Value == nil || k.Value.Kind() != constant.String || !isNamed(k.Type(), "token", "Type") {
 					continue
 				}
-				// X derives from prevToken.Type
-				fromPrev := false
-				var w func(v ssa.Value, d int)
-				w = func(v ssa.Value, d int) {
-					if v == nil || d > 5 {
-						return
-					}
-					switch x := v.(type) {
-					case *ssa.UnOp:
-						w(x.X, d+1)
-					case *ssa.FieldAddr:
-						if fieldKey(x) == "lexer.Lexer.prevToken" {
-							fromPrev = true
-						}
-						w(x.X, d+1)
-					}
-				}
-				w(bo.X, 0)
-				if fromPrev {
+				if derivesFromPrev(bo.X) {
 					found[constant.StringVal(k.Value)] = true
 				}
 			}
